@@ -6,17 +6,20 @@ set -u
 d="$1"
 export GOFLAGS=-mod=mod GOPROXY=off GOSUMDB=off GOTOOLCHAIN=local
 wt=$(mktemp -d /tmp/seedchk.XXXX); rmdir "$wt"
+log=/tmp/seedlog.$(basename $d)
 git -C /repo worktree add -q --detach "$wt" HEAD || exit 2
 trap 'git -C /repo worktree remove --force "$wt" >/dev/null 2>&1' EXIT
 place=$(grep -m1 -o "place in: *[A-Za-z0-9_/.]*" "$d/demo_test.go" | sed 's/place in: *//')
+[ -z "$place" ] && place=$(grep -m1 -io "package directory: *[A-Za-z0-9_/.]*" "$d/demo_test.go" | sed 's/[Pp]ackage directory: *//; s#/$##')
+race=""; grep -qi "run with -race" "$d/demo_test.go" && race="-race"
 [ -z "$place" ] && place="."
 [ "$place" = "repo" ] && place="."
 [ "$place" = "root" ] && place="."
 cp "$d/demo_test.go" "$wt/$place/zz_seed_demo_test.go"
-( cd "$wt" && go test -vet=off -count=1 -run 'Seed|Demo|Test' ./$place/ >/tmp/seed_demo_clean.log 2>&1 ); clean=$?
+( cd "$wt" && go test $race -vet=off -count=1 -run 'Seed|Demo' ./$place/ >$log.clean 2>&1 ); clean=$?
 git -C "$wt" apply "$d/patch.diff" || { echo "RESULT $d patch-does-not-apply"; exit 1; }
-( cd "$wt" && go build ./... >/tmp/seed_build.log 2>&1 ); build=$?
-( cd "$wt" && go test -vet=off -count=1 ./$place/ >/tmp/seed_demo_patched.log 2>&1 ); patched=$?
+( cd "$wt" && go build ./... >$log.build 2>&1 ); build=$?
+( cd "$wt" && go test $race -vet=off -count=1 -run 'Seed|Demo' ./$place/ >$log.patched 2>&1 ); patched=$?
 rm -f "$wt/$place/zz_seed_demo_test.go"
-( cd "$wt" && go test -vet=off -count=1 ./... >/tmp/seed_suite.log 2>&1 ); suite=$?
+( cd "$wt" && go test -vet=off -count=1 ./... >$log.suite 2>&1 ); suite=$?
 echo "RESULT $d place=$place build=$build suite_with_patch=$suite demo_clean=$clean demo_patched=$patched"
